@@ -50,6 +50,11 @@ FAULT_PROPS = {
     "NOT_LEFT": {"C08"},
     "PAIR_SPLIT": {"C05", "C12"},
     "SERDE": {"C20"},
+    "CLONE_COUNT": {"C15"},
+    "CLONE_EQ": {"C15", "C14"},
+    "OVERFLOW_OK": {"C03"},
+    "OVERFLOW_STATE": {"C03"},
+    "SHAPES_PANIC": {"C06"},
     "CRASH": None,  # every property
 }
 # suites whose base cases get every fault position of the listed kinds
@@ -142,14 +147,22 @@ def proof_gate(prop):
         info["notes"].append("Coq build failed: " + msg[-1500:])
         return False, info
     # forbidden vernacular anywhere in the development
-    for dp, _, fs in os.walk(COQ):
-        for f in fs:
-            if f.endswith(".v"):
-                src = strip_comments(open(os.path.join(dp, f)).read())
-                m = BAD_WORDS.search(src)
-                if m:
-                    info["notes"].append(f"forbidden vernacular '{m.group(0)}' in {f}")
-                    return False, info
+    listed = [l.strip() for l in open(COQ + "/_CoqProject") if l.strip().endswith(".v")] + ["Extract.v"]
+    for rel in listed:
+        fp = os.path.join(COQ, rel)
+        if not os.path.exists(fp):
+            info["notes"].append(f"{rel} listed in _CoqProject is missing")
+            return False, info
+        src = strip_comments(open(fp).read())
+        m = BAD_WORDS.search(src)
+        if m:
+            info["notes"].append(f"forbidden vernacular '{m.group(0)}' in {rel}")
+            return False, info
+    # every .v file of the development must be part of the build (nothing proved "on the side")
+    for sub in ("Model", "Proofs", "Props"):
+        for f in sorted(os.listdir(os.path.join(COQ, sub))):
+            if f.endswith(".v") and not f.startswith("Tmp_goal_") and f"{sub}/{f}" not in listed:
+                info["notes"].append(f"note: {sub}/{f} is not in _CoqProject (ignored)")
     src = strip_comments(open(pf).read())
     thms = re.findall(r"\b(?:Theorem|Lemma|Corollary)\s+([A-Za-z0-9_']+)", src)
     info["theorems"] = thms
@@ -395,34 +408,50 @@ def surface_check():
     return [e for e in cur if e not in have]
 
 
+def rust_code_only(src):
+    """strip // comments (incl. doc comments) and string literals, drop #[cfg(test)] tails"""
+    src = src.split("#[cfg(test)]")[0]
+    out = []
+    for line in src.split("\n"):
+        line = re.sub(r'"(?:[^"\\]|\\.)*"', '""', line)
+        i = line.find("//")
+        if i >= 0:
+            line = line[:i]
+        out.append(line)
+    return "\n".join(out)
+
+
 def nostd_check():
-    """C06: the crate builds without the standard library: the expanded crate carries #![no_std] and links
-    neither std nor alloc.  returns (ok, text)"""
-    r = sh("cd /repo && CARGO_TARGET_DIR=" + CACHE + "/target-nostd cargo +nightly rustc --lib --offline -- -Zunpretty=expanded 2>&1",
-           timeout=900)
-    txt = r.stdout
-    if r.returncode != 0 or "#![no_std]" not in txt:
-        # fall back to a plain build + source scan when the nightly expansion is unavailable
-        r2 = sh("cd /repo && CARGO_TARGET_DIR=" + CACHE + "/target-nostd cargo build --lib --offline 2>&1", timeout=900)
-        lib = open("/repo/src/lib.rs").read()
-        attr = re.search(r"#!\[cfg_attr\(all\(not\(feature = \"std\"\), not\(doc\), not\(test\)\), no_std\)\]", lib)
-        if r2.returncode != 0:
-            return False, "cargo build --lib failed:\n" + r2.stdout[-1500:]
-        if not attr:
-            return False, "src/lib.rs no longer declares no_std outside std/doc/test"
-        txt = ""
-        for dp, _, fs in os.walk("/repo/src"):
-            for f in fs:
-                if f.endswith(".rs"):
-                    txt += open(os.path.join(dp, f)).read().split("#[cfg(test)]")[0]
-    bad = re.findall(r"extern crate (std|alloc)\b|\b(std|alloc)::(vec|boxed|string|collections|rc|sync)\b", txt)
+    """C06: the crate builds without the standard library: it still compiles as a library with no
+    features, src/lib.rs still declares no_std outside std/doc/test, and no code path names std or alloc.
+    When the nightly toolchain can expand the crate, the expansion must carry #![no_std] too.
+    returns (ok, text)"""
+    r2 = sh("cd /repo && CARGO_TARGET_DIR=" + CACHE + "/target-nostd cargo build --lib --offline 2>&1", timeout=900)
+    if r2.returncode != 0:
+        return False, "cargo build --lib (no features) failed:\n" + r2.stdout[-1500:]
+    lib = open("/repo/src/lib.rs").read()
+    if not re.search(r'#!\[cfg_attr\(\s*all\(not\(feature = "std"\), not\(doc\), not\(test\)\),\s*no_std\s*\)\]', lib):
+        return False, "src/lib.rs no longer declares no_std outside std/doc/test"
+    code = ""
+    for dp, _, fs in os.walk("/repo/src"):
+        for f in sorted(fs):
+            if f.endswith(".rs"):
+                code += rust_code_only(open(os.path.join(dp, f)).read()) + "\n"
+    bad = re.findall(r"\bextern\s+crate\s+(?:std|alloc)\b|\b(?:std|alloc)::\w+", code)
     if bad:
-        return False, "the library refers to std/alloc: " + str(bad[:5])
-    return True, "no_std build ok"
+        return False, "the library code names std/alloc: " + ", ".join(sorted(set(bad))[:6])
+    note = "no_std build ok (plain build + source scan)"
+    r = sh("cd /repo && CARGO_TARGET_DIR=" + CACHE + "/target-nostd cargo +nightly rustc --lib --offline -- -Zunpretty=expanded 2>/dev/null",
+           timeout=900)
+    if r.returncode == 0 and "prelude_import" in r.stdout:
+        if "#![no_std]" not in r.stdout or re.search(r"extern crate (std|alloc)\b", r.stdout):
+            return False, "the expanded crate is not no_std / links std or alloc"
+        note = "no_std build ok (plain build + source scan + nightly expansion)"
+    return True, note
 
 
 def fault_kind(line):
-    m = re.match(r"FAULT \d+ op=\S+ (\S+)", line)
+    m = re.match(r"FAULT -?\d+ op=\S+ (\S+)", line)
     return m.group(1) if m else "?"
 
 
@@ -522,6 +551,18 @@ def check(prop, tier, replay=None):
                 if ln.startswith("FAULT"):
                     all_faults.append((prof, int(ln.split()[1]), ln.strip()))
 
+    # 4b. element-shape oracles (no-Drop types with an observable Clone, ZST, Copy, large, heap-owning)
+    if not replay and prop in ("C03", "C06", "C15"):
+        for prof in ("debug", "release"):
+            fp = f"{tmp}.{prof}.shapes"
+            r = sh(f"{CACHE}/target/{prof}/mm-harness --shapes {fp}", timeout=120)
+            if r.returncode != 0:
+                all_faults.append((prof, -1, f"FAULT -1 op=shapes CRASH the shape scenario died ({prof} build)"))
+            elif os.path.exists(fp):
+                for ln in open(fp):
+                    if ln.startswith("FAULT"):
+                        all_faults.append((prof, -1, ln.strip()))
+
     # 5. kernel cross-check of the extracted runner
     ksample, kfails = (0, [])
     if not replay:
@@ -540,7 +581,9 @@ def check(prop, tier, replay=None):
             continue
         reported.add(ci)
         case = cases[ci] if 0 <= ci < len(cases) else ""
-        small = shrink(case, fails) if case and len(reported) <= 3 else case
+        if ci < 0:
+            case = "# element-shape scenario of harness/src/shapes.rs; re-run: .cache/target/" + prof + "/mm-harness --shapes /dev/stdout"
+        small = shrink(case, fails) if case and ci >= 0 and len(reported) <= 3 else case
         h = hashlib.sha1(small.encode()).hexdigest()[:10]
         rp = f"{OUT}/replay/{prop}-{h}.case"
         with open(rp, "w") as f:
